@@ -71,6 +71,7 @@ type Run struct {
 	OutDir   string
 	Workers  int
 	results  map[string]*FuncResult
+	pending  []pendingVC
 }
 
 func (r *Run) assume(s string) { r.Assume[s] = true }
@@ -111,11 +112,43 @@ func (r *Run) runFunc(it Item) {
 		}
 	}
 	fr.VC.obls = keep
-	discharge(fr.VC, r.SmtDir, r.Prop+"_"+it.Func, r.Workers, quick, slow)
-	r.Obls = append(r.Obls, fr.VC.obls...)
+	_ = quick
+	_ = slow
+	r.pending = append(r.pending, pendingVC{fr.VC, r.Prop + "_" + it.Func})
 	for _, n := range fr.VC.notes {
 		r.Notes = append(r.Notes, n)
 	}
+}
+
+type pendingVC struct {
+	vc  *VC
+	tag string
+}
+
+// solveAll discharges the generated VCs, several functions at a time.
+func (r *Run) solveAll() {
+	quick, slow := 5, 20
+	if r.Tier == "thorough" {
+		quick, slow = 10, 60
+	}
+	sem := make(chan struct{}, 12)
+	done := make(chan struct{}, len(r.pending))
+	for _, p := range r.pending {
+		p := p
+		sem <- struct{}{}
+		go func() {
+			dischargeBatch(p.vc, r.SmtDir, p.tag, 4, quick, slow)
+			<-sem
+			done <- struct{}{}
+		}()
+	}
+	for range r.pending {
+		<-done
+	}
+	for _, p := range r.pending {
+		r.Obls = append(r.Obls, p.vc.obls...)
+	}
+	r.pending = nil
 }
 
 func checkMain(args []string) int {
@@ -147,6 +180,7 @@ func checkMain(args []string) int {
 		}
 		run.runFunc(it)
 	}
+	run.solveAll()
 	known, err := loadKnown(filepath.Join(root, "known_findings.jsonl"))
 	if err != nil {
 		fmt.Println(err)
